@@ -17,6 +17,7 @@ and every direction that is dropped was shown unsatisfiable by z3.
 """
 
 import fractions
+import sys
 import itertools
 import os
 import time
@@ -24,6 +25,8 @@ import time
 import z3
 
 INF = float("inf")
+if hasattr(sys, "set_int_max_str_digits"):
+    sys.set_int_max_str_digits(0)  # z3 models may contain very large integers
 
 
 class PathAbort(BaseException):
